@@ -103,8 +103,11 @@ fn try_variant<C: MlsConfig>(
                 // The hook re-signs and re-MACs but keeps the old confirmation tag, which a real insider (who knows the commit
                 // secret) can recompute as well: a structurally invalid commit that is stopped only by the confirmation tag has
                 // passed every structural check.  (Dropped ciphertexts of other receivers are undetectable by design.)
-                if err_class(&e) == "InvalidConfirmationTag" && !label.contains("stale-confirmation-tag") && !label.contains("drop-ciphertexts") {
-                    out.fail("C03", format!("{rname}: {label} passed every structural check and was stopped only by the confirmation tag"));
+                // The same holds for the HPKE decryption of the path secret (its context covers the tree hash, which the
+                // insider knows): `CryptoProviderError` after the structural checks is not a structural rejection either.
+                let late = ["InvalidConfirmationTag", "CryptoProviderError"].contains(&err_class(&e).as_str());
+                if late && !label.contains("stale-confirmation-tag") && !label.contains("drop-ciphertexts") {
+                    out.fail("C03", format!("{rname}: {label} passed every structural check and was stopped only later ({})", err_class(&e)));
                 }
             }
         }
